@@ -65,3 +65,42 @@ PROPS['C13'] = dict(
     modelled=_root_modelled,
     assumptions=[],
 )
+
+_hist_rule = ('cases: random histories (4-40 ops) over one Number (finite test numbers of lengths 1,2,5,99,100,101,199,200,201,250,300; '
+              'fixed+repeating and purely repeating infinite ones; exponents -3..12) and views derived from it: derive ops WithStart/WithEnd/'
+              'FiniteWithStart/WithSignificant with arguments from {MinInt, -1, 0, 1, block multiples +-1, len-1, len, len+1, MaxInt, random}, '
+              'At, pull iterators of every kind the version offers (created, pulled 1-101 times interleaved with other ops, abandoned, pulled after '
+              'the end), push iterators All/Values/Backward stopped after k items, AsString, v1 NumDigits; versions rotate. Non-trivial: the history '
+              'contains pulls, runs, limits, starts or backward traversals; distinct = distinct (version, args).')
+PROPS['C04'] = dict(
+    theorem='C04_at, C04_scan, C04_pulls, C04_history_independent, C04_listing_consecutive (Properties/C04.v)',
+    functional=True,
+    level_text='Theorems for every digit string D, every oracle for memoizer.wait satisfying the wait contract (so every block size, timing and '
+               'interleaving) and every history: At = D[i]; Scan/ScanValues with early exit = the first k positions of [idx, limit); any sequence of '
+               'pulls on a pull iterator, with arbitrary other calls in between, delivers consecutive positions then "end" forever; two iterators '
+               'created at the same index agree whatever their histories. The reference semantics (listing of D restricted to the view) is run against '
+               'all read paths of all three versions on random interleaved histories.',
+    level_note='Proved on the model of memoizer.At / Scan / v1-v2 IteratorAt (LayerC.v). The remaining wrappers (v3 lazy IteratorAt, fullIteratorAt prefetch, '
+               'ReverseTo/ReverseScan over FirstN, limitSpec clamps) are covered by the correspondence run only; their proofs are listed as future work in DESIGN.md.',
+    rule=_hist_rule, modelled='memoizer.wait as an oracle constrained by WaitOK', assumptions=[],
+)
+PROPS['C07'] = dict(
+    theorem='C07_interval, C07_order_free, C07_significant_zero, C07_significant_keeps_exponent (Properties/C07.v)',
+    functional=True,
+    level_text='Theorem for every chain (any length, any integer arguments) on every well-formed value of the v3 representation (which contains the v1/v2 '
+               'representation as its FN/MWS fragment): the positions of the result are exactly those of the receiver that satisfy all starts and all ends, '
+               'hence order-free; WithSignificant keeps the exponent iff a digit can remain. Differential run on random chains over the boundary grid with '
+               'every traversal method, re-reading parents and siblings after deriving children.',
+    level_note='Interval semantics proved for the representation and methods as coded (withLimit flattening, identity short-cuts, opaque wrappers). That every '
+               'traversal lists exactly the interval is C04.',
+    rule=_hist_rule, modelled='Go interface equality in the identity short-cuts as structural equality of the representation', assumptions=[],
+)
+PROPS['C17'] = dict(
+    theorem='C17_iff, C17_never, C17_ptr_finite (Properties/C17.v)',
+    functional=True,
+    level_text='Theorem for all chains: the dynamic type of the result implements FiniteSequence iff the value is bounded by construction; no chain of WithStart '
+               'on an unbounded base is ever finite. The tag table (which concrete type implements which interface) is compared with reflect and the three '
+               'type assertions on every derived value of random v3 chains.',
+    level_note='Go method sets are modelled by a tag table; the table is checked against the real type assertions in every case.',
+    rule=_hist_rule + ' (v3 only, derive-heavy profile)', modelled='Go dynamic types / method sets as a tag table', assumptions=[],
+)
